@@ -598,10 +598,10 @@ make_inflate_huff_code_lit_len(struct inflate_huff_code_large *result,
         }
 }
 
-static void inline make_inflate_huff_code_dist(struct inflate_huff_code_small *result,
-                                               struct huff_code *huff_code_table,
-                                               uint32_t table_length, uint16_t *count,
-                                               uint32_t max_symbol)
+static int inline make_inflate_huff_code_dist(struct inflate_huff_code_small *result,
+                                              struct huff_code *huff_code_table,
+                                              uint32_t table_length, uint16_t *count,
+                                              uint32_t max_symbol)
 {
         int i, j, k;
         uint32_t *long_code_list;
@@ -632,7 +632,7 @@ static void inline make_inflate_huff_code_dist(struct inflate_huff_code_small *r
         code_list_len = count_total[16];
         if (code_list_len == 0) {
                 memset(result->short_code_lookup, 0, sizeof(result->short_code_lookup));
-                return;
+                return 0;
         }
 
         for (i = 0; i < table_length; i++) {
@@ -708,6 +708,12 @@ static void inline make_inflate_huff_code_dist(struct inflate_huff_code_small *r
                         }
                 }
 
+                /* A complete distance code never needs more long code entries than
+                 * the table holds, an incomplete one (which is accepted) can */
+                if (long_code_lookup_length + (1 << (max_length - ISAL_DECODE_SHORT_BITS)) >
+                    ISAL_HUFF_CODE_SMALL_LONG_ALIGNED)
+                        return 1;
+
                 memset(&result->long_code_lookup[long_code_lookup_length], 0x00,
                        2 * (1 << (max_length - ISAL_DECODE_SHORT_BITS)));
 
@@ -739,6 +745,8 @@ static void inline make_inflate_huff_code_dist(struct inflate_huff_code_small *r
                         SMALL_FLAG_BIT;
                 long_code_lookup_length += 1 << (max_length - ISAL_DECODE_SHORT_BITS);
         }
+
+        return 0;
 }
 
 static void inline make_inflate_huff_code_header(struct inflate_huff_code_small *result,
@@ -1378,8 +1386,9 @@ static int inline setup_dynamic_header(struct inflate_state *state)
         if (state->hist_bits && state->hist_bits < 15)
                 max_dist = 2 * state->hist_bits;
 
-        make_inflate_huff_code_dist(&state->dist_huff_code, &lit_and_dist_huff[LIT_LEN], DIST_LEN,
-                                    dist_count, max_dist);
+        if (make_inflate_huff_code_dist(&state->dist_huff_code, &lit_and_dist_huff[LIT_LEN], DIST_LEN,
+                                        dist_count, max_dist))
+                return ISAL_INVALID_BLOCK;
 
         if (set_and_expand_lit_len_huffcode(lit_and_dist_huff, LIT_LEN, lit_count, lit_expand_count,
                                             code_list))
